@@ -5,18 +5,28 @@
 
     Times are exact ticks ([Z]).  No proofs in this file.
 
-    Representation of the code's loop state:
-    - [subsequence_index] (starts at -1) is carried as the triple
-        [k    = subsequence_index + 1 : nat]      (number of split times passed),
-        [a    = split_times[subsequence_index]]   (never read while the index is -1),
-        [rest = split_times[subsequence_index + 1 :]].
-      So [split_times[subsequence_index + 1]] is the head of [rest],
-      [subsequence_index < len(split_times) - 1] is [rest <> []], and
-      [subsequence_index == len(split_times) - 1] is [rest = []].
-    - [containers[i].extend([x])] is an emission [(i, x)] appended to a log; the
-      content of container [i] is [collect i log] (the emissions to [i], in order).
-    - [previous_pedal_events] (a dict, insertion ordered) is an association list;
-      assignment to an existing key keeps its position, a new key goes last. *)
+    How the code's loops are rendered.  Every pass of the code is
+      [subsequence_index = -1
+       for x in sorted(...):            # outer loop: one event at a time
+         <continue if x is before split_times[0]>
+         while subsequence_index < len(split_times) - 1 and x.time >(=) split_times[subsequence_index + 1]:
+           subsequence_index += 1 ...  # inner loop: one split time at a time
+         if subsequence_index == len(split_times) - 1: break
+         containers[subsequence_index].extend([x]) ...]
+    i.e. a machine that in every step consumes either one event or one split time and
+    never goes back.  The model is exactly that machine, written as the usual
+    two-list recursion ("merge" shape): the state is
+        [a    = split_times[subsequence_index]]      (start of the piece being filled),
+        [rest = split_times[subsequence_index + 1 :]] (so [rest = []] is
+                                                      [subsequence_index == len - 1]),
+        the remaining events, and the carried [previous_event] / pedal dict;
+    the result is the list of the containers [subsequence_index, subsequence_index+1, ...]
+    (what is still going to be appended to each of them), so that
+    "append to containers[subsequence_index]" is [cons_hd] and "subsequence_index += 1"
+    closes the head container.  While [subsequence_index = -1] the head is a virtual
+    container (nothing is ever appended to it; it is dropped with [tl]).
+    [previous_pedal_events] (a dict, insertion ordered) is an association list;
+    assignment to an existing key keeps its position, a new key goes last. *)
 From Coq Require Import ZArith List Bool.
 From NS Require Import Base.Sx Base.NoteSeq.
 Import ListNotations.
@@ -44,42 +54,41 @@ Inductive res (A : Type) := Ok (a : A) | Err (e : xerr).
 Arguments Ok {A} a.
 Arguments Err {A} e.
 
-(** * Emission logs *)
-Definition collect {A} (i : nat) (log : list (nat * A)) : list A :=
-  map snd (filter (fun p => Nat.eqb (fst p) i) log).
-
+(** * Containers *)
 Definition tsn (ts : list Z) (i : nat) : Z := nth i ts 0.
 
 Definition opt_list {A} (o : option A) : list A :=
   match o with Some x => [x] | None => [] end.
 
-Definition walk := (nat * Z * list Z)%type.      (* (k, a, rest) *)
+(** [containers[subsequence_index].extend([x])] *)
+Definition cons_hd {A} (x : A) (r : list (list A)) : list (list A) :=
+  match r with p :: r' => (x :: p) :: r' | [] => [] end.
+(** the carried events go in front of whatever else the (new) head container receives *)
+Definition prepend {A} (c : list A) (r : list (list A)) : list (list A) :=
+  match r with p :: r' => (c ++ p) :: r' | [] => [] end.
 
-(** * Note pass (lines 190-209) and BEAT pass (lines 261-278): same index walk.
+(** * Note pass (lines 190-209)
 
-    [while subsequence_index < len(split_times) - 1 and
-           x >= split_times[subsequence_index + 1]: subsequence_index += 1] *)
-Fixpoint adv_ge (x : Z) (k : nat) (a : Z) (rest : list Z) : walk :=
-  match rest with
-  | [] => (k, a, [])
-  | t :: rest' => if x >=? t then adv_ge x (S k) t rest' else (k, a, rest)
-  end.
-
-(** [notes[-1].start_time -= split_times[i];
-     notes[-1].end_time = min(note.end_time, split_times[i+1]) - split_times[i]] *)
+    [for note in sorted(notes, key=start_time):
+       if note.start_time < split_times[0]: continue
+       while idx < len - 1 and note.start_time >= split_times[idx + 1]: idx += 1
+       if idx == len - 1: break
+       append a copy to subsequences[idx], start -= split_times[idx],
+       end = min(end, split_times[idx + 1]) - split_times[idx]]
+    The [continue] touches no state, so it is a filter (see [extract_pieces]). *)
 Definition clipshift (a b : Z) (n : note) : note :=
   note_with_times n (n_start n - a) (Z.min (n_end n) b - a).
 
-Fixpoint note_pass (t0 : Z) (k : nat) (a : Z) (rest : list Z) (l : list note) : list (nat * note) :=
-  match l with
-  | [] => []
-  | n :: l' =>
-      if n_start n <? t0 then note_pass t0 k a rest l'                 (* continue *)
-      else
-        match adv_ge (n_start n) k a rest with
-        | (_, _, []) => []                                             (* break *)
-        | (k', a', (b :: _) as rest') =>
-            ((k' - 1)%nat, clipshift a' b n) :: note_pass t0 k' a' rest' l'
+Fixpoint note_walk (a : Z) (rest : list Z) : list note -> list (list note) :=
+  match rest with
+  | [] => fun _ => []                                    (* idx == len - 1: break *)
+  | b :: rest' =>
+      fix inner (l : list note) : list (list note) :=
+        match l with
+        | [] => [] :: repeat [] (length rest')           (* later containers stay empty *)
+        | n :: l' =>
+            if n_start n >=? b then [] :: note_walk b rest' l          (* idx += 1 *)
+            else cons_hd (clipshift a b n) (inner l')
         end
   end.
 
@@ -90,60 +99,50 @@ Definition piece_total (ns : list note) : Z :=
 Definition text_with_time (t : text) (x : Z) : text :=
   mkText x (tx_qstep t) (tx_text t) (tx_type t).
 
-Fixpoint beat_pass (t0 : Z) (k : nat) (a : Z) (rest : list Z) (l : list text) : list (nat * text) :=
-  match l with
-  | [] => []
-  | e :: l' =>
-      if tx_time e <? t0 then beat_pass t0 k a rest l'
-      else
-        match adv_ge (tx_time e) k a rest with
-        | (_, _, []) => []
-        | (k', a', (_ :: _) as rest') =>
-            ((k' - 1)%nat, text_with_time e (tx_time e - a')) :: beat_pass t0 k' a' rest' l'
+(** * BEAT pass (lines 261-278): the same walk, only the time is shifted *)
+Fixpoint beat_walk (a : Z) (rest : list Z) : list text -> list (list text) :=
+  match rest with
+  | [] => fun _ => []
+  | b :: rest' =>
+      fix inner (l : list text) : list (list text) :=
+        match l with
+        | [] => [] :: repeat [] (length rest')
+        | e :: l' =>
+            if tx_time e >=? b then [] :: beat_walk b rest' l
+            else cons_hd (text_with_time e (tx_time e - a)) (inner l')
         end
   end.
 
 (** * State-event passes (lines 227-256)
 
-    [while subsequence_index < len(split_times) - 1 and
-           event.time > split_times[subsequence_index + 1]:
-       subsequence_index += 1
-       if subsequence_index == len(split_times) - 1: break
-       <emit the carried events, time 0, into containers[subsequence_index]>]
-    Returns the new walk state and the emissions.  [carry] is already re-timed to 0. *)
-Fixpoint adv_gt {A} (x : Z) (k : nat) (a : Z) (rest : list Z) (carry : list A)
-  : walk * list (nat * A) :=
+    [for event in sorted(events, key=time):
+       if event.time <= split_times[0]: previous_event = event; continue
+       while idx < len - 1 and event.time > split_times[idx + 1]:
+         idx += 1
+         if idx == len - 1: break
+         if previous_event is not None: containers[idx].extend([previous_event at time 0])
+       if idx == len - 1: break
+       if event.time < split_times[idx + 1]: containers[idx].extend([event shifted])
+       previous_event = event
+     while idx < len - 2: idx += 1; <same carry>]
+    When [rest' = []] the recursive call returns [[]] and [prepend] does nothing:
+    that is the [break] before the carry is emitted. *)
+Fixpoint state_walk {A} (time : A -> Z) (set_time : A -> Z -> A) (t0 a : Z) (rest : list Z)
+  : option A -> list A -> list (list A) :=
   match rest with
-  | [] => ((k, a, []), [])
-  | t :: rest' =>
-      if x >? t then
-        match rest' with
-        | [] => ((S k, t, []), [])                    (* new index = len - 1: break *)
-        | _ :: _ =>
-            let r := adv_gt x (S k) t rest' carry in
-            (fst r, map (fun c => (k, c)) carry ++ snd r)
-        end
-      else ((k, a, rest), [])
-  end.
-
-(** [while subsequence_index < len(split_times) - 2: subsequence_index += 1; <emit carry>] *)
-Definition flush_carry {A} (k : nat) (rest : list Z) (carry : list A) : list (nat * A) :=
-  flat_map (fun i => map (fun c => (i, c)) carry) (List.seq k (length rest - 1)).
-
-Fixpoint state_pass {A} (time : A -> Z) (set_time : A -> Z -> A) (t0 : Z)
-         (k : nat) (a : Z) (rest : list Z) (prev : option A) (l : list A) : list (nat * A) :=
-  match l with
-  | [] => flush_carry k rest (map (fun p => set_time p 0) (opt_list prev))
-  | e :: l' =>
-      if time e <=? t0 then state_pass time set_time t0 k a rest (Some e) l'
-      else
-        let r := adv_gt (time e) k a rest (map (fun p => set_time p 0) (opt_list prev)) in
-        match fst r with
-        | (_, _, []) => snd r                                            (* break; no flush *)
-        | (k', a', (b :: _) as rest') =>
-            snd r
-            ++ (if time e <? b then [((k' - 1)%nat, set_time e (time e - a'))] else [])
-            ++ state_pass time set_time t0 k' a' rest' (Some e) l'
+  | [] => fun _ _ => []
+  | b :: rest' =>
+      fix inner (prev : option A) (l : list A) : list (list A) :=
+        let carry := map (fun p => set_time p 0) (opt_list prev) in
+        match l with
+        | [] => [] :: repeat carry (length rest')                       (* final while loop *)
+        | e :: l' =>
+            if time e <=? t0 then inner (Some e) l'                      (* continue *)
+            else if time e >? b then
+              [] :: prepend carry (state_walk time set_time t0 b rest' prev l)   (* idx += 1 *)
+            else
+              let r := inner (Some e) l' in
+              if time e <? b then cons_hd (set_time e (time e - a)) r else r
         end
   end.
 
@@ -157,20 +156,22 @@ Fixpoint dict_set {A} (d : list (key * A)) (k : key) (v : A) : list (key * A) :=
   | (k', v') :: r => if key_eqb k' k then (k', v) :: r else (k', v') :: dict_set r k v
   end.
 
-Fixpoint dict_pass {A} (kf : A -> key) (time : A -> Z) (set_time : A -> Z -> A) (t0 : Z)
-         (k : nat) (a : Z) (rest : list Z) (d : list (key * A)) (l : list A) : list (nat * A) :=
-  match l with
-  | [] => flush_carry k rest (map (fun p => set_time (snd p) 0) d)
-  | e :: l' =>
-      if time e <=? t0 then dict_pass kf time set_time t0 k a rest (dict_set d (kf e) e) l'
-      else
-        let r := adv_gt (time e) k a rest (map (fun p => set_time (snd p) 0) d) in
-        match fst r with
-        | (_, _, []) => snd r
-        | (k', a', (b :: _) as rest') =>
-            snd r
-            ++ (if time e <? b then [((k' - 1)%nat, set_time e (time e - a'))] else [])
-            ++ dict_pass kf time set_time t0 k' a' rest' (dict_set d (kf e) e) l'
+Fixpoint dict_walk {A} (kf : A -> key) (time : A -> Z) (set_time : A -> Z -> A) (t0 a : Z)
+         (rest : list Z) : list (key * A) -> list A -> list (list A) :=
+  match rest with
+  | [] => fun _ _ => []
+  | b :: rest' =>
+      fix inner (d : list (key * A)) (l : list A) : list (list A) :=
+        let carry := map (fun p => set_time (snd p) 0) d in            (* d.values(), time = 0 *)
+        match l with
+        | [] => [] :: repeat carry (length rest')
+        | e :: l' =>
+            if time e <=? t0 then inner (dict_set d (kf e) e) l'
+            else if time e >? b then
+              [] :: prepend carry (dict_walk kf time set_time t0 b rest' d l)
+            else
+              let r := inner (dict_set d (kf e) e) l' in
+              if time e <? b then cons_hd (set_time e (time e - a)) r else r
         end
   end.
 
@@ -204,21 +205,30 @@ Definition beats_of (s : seq) : list text :=
 Definition pedals_of (pres : list Z) (s : seq) : list cc :=
   filter (fun c => zmem (cc_num c) pres) (s_ccs s).
 
+(** containers 0 .. len-2 of each pass; [tl] drops the virtual container of index -1 *)
+Definition note_pieces (ts : list Z) (notes : list note) : list (list note) :=
+  tl (note_walk 0 ts (filter (fun n => negb (n_start n <? tsn ts 0)) (sort_by n_start notes))).
+Definition beat_pieces (ts : list Z) (beats : list text) : list (list text) :=
+  tl (beat_walk 0 ts (filter (fun e => negb (tx_time e <? tsn ts 0)) (sort_by tx_time beats))).
+Definition state_pieces {A} (time : A -> Z) (set_time : A -> Z -> A) (ts : list Z) (evs : list A)
+  : list (list A) :=
+  tl (state_walk time set_time (tsn ts 0) 0 ts None (sort_by time evs)).
+Definition pedal_pieces (ts : list Z) (pedals : list cc) : list (list cc) :=
+  tl (dict_walk pedal_key cc_time cc_with_time (tsn ts 0) 0 ts [] (sort_by cc_time pedals)).
+
 Definition extract_pieces (pres : list Z) (s : seq) (ts : list Z) : list seq :=
-  let t0 := tsn ts 0 in
-  let nlog := note_pass t0 0 0 ts (sort_by n_start (s_notes s)) in
-  let tslog := state_pass ts_time tsig_with_time t0 0 0 ts None (sort_by ts_time (s_tsigs s)) in
-  let kslog := state_pass ks_time ksig_with_time t0 0 0 ts None (sort_by ks_time (s_ksigs s)) in
-  let tplog := state_pass tp_time tempo_with_time t0 0 0 ts None (sort_by tp_time (s_tempos s)) in
-  let chlog := state_pass tx_time text_with_time t0 0 0 ts None (sort_by tx_time (chords_of s)) in
-  let btlog := beat_pass t0 0 0 ts (sort_by tx_time (beats_of s)) in
-  let cclog := dict_pass pedal_key cc_time cc_with_time t0 0 0 ts []
-                         (sort_by cc_time (pedals_of pres s)) in
+  let np := note_pieces ts (s_notes s) in
+  let tsp := state_pieces ts_time tsig_with_time ts (s_tsigs s) in
+  let ksp := state_pieces ks_time ksig_with_time ts (s_ksigs s) in
+  let tpp := state_pieces tp_time tempo_with_time ts (s_tempos s) in
+  let chp := state_pieces tx_time text_with_time ts (chords_of s) in
+  let btp := beat_pieces ts (beats_of s) in
+  let ccp := pedal_pieces ts (pedals_of pres s) in
   map (fun i =>
-         let ns := collect i nlog in
+         let ns := nth i np [] in
          let total := piece_total ns in
-         mkSeq ns (collect i tplog) (collect i tslog) (collect i kslog)
-               (collect i chlog ++ collect i btlog) (collect i cclog)
+         mkSeq ns (nth i tpp []) (nth i tsp []) (nth i ksp [])
+               (nth i chp [] ++ nth i btp []) (nth i ccp [])
                [] (s_sects s)
                total (s_qsteps s) (s_spq s) (s_sps s)
                (tsn ts i, s_total s - tsn ts i - total)
